@@ -781,12 +781,12 @@ func TestC10(t *testing.T) {
 			continue
 		}
 		hint := 0
-		if inlineRoot && growsFile(len(j.c.Init), done) {
-			hint = 8
-			st.Count("signature:C10-8 (inline-data root grown)")
-		} else if j.c.Prefix == "identity" && sawDigestTooLarge {
+		if j.c.Prefix == "identity" && sawDigestTooLarge {
 			hint = 7
 			st.Count("signature:C10-7 (identity digest too large)")
+		} else if inlineRoot && growsFile(len(j.c.Init), done) {
+			hint = 8
+			st.Count("signature:C10-8 (inline-data root grown)")
 		}
 		term := vh.App("Build_case", j.c.initCoq(), vh.ListOf(done, func(o op) string { return o.coq() }), vh.List(obs),
 			vh.N(uint64(hint)), pref)
